@@ -259,6 +259,67 @@ theorem noPanic_cond {α} (c : Bool) {a b : R α} (ha : NoPanic a) (hb : NoPanic
   cases c <;> simp [ha, hb]
 
 
+/-! ### partial correctness (used by the C07/C08 compositions, which only speak about accepted frames) -/
+
+/-- if `m` returns a value from `s`, the value satisfies `Q` (errors and panics are not excluded) -/
+def post {α} (m : R α) (Q : α → Rd → Prop) (s : Rd) : Prop :=
+  ∀ a s', m s = .ok (a, s') → Q a s'
+
+theorem post_of_wp {α} {m : R α} {Q : α → Rd → Prop} {s : Rd} (h : wp m Q s) : post m Q s := by
+  intro a s' e; unfold wp at h; rw [e] at h; exact h
+
+theorem post_mono {α} {m : R α} {Q Q' : α → Rd → Prop} {s : Rd}
+    (h : post m Q s) (hq : ∀ a s', Q a s' → Q' a s') : post m Q' s :=
+  fun a s' e => hq a s' (h a s' e)
+
+theorem post_bind {α β} (m : R α) (f : α → R β) (Q : β → Rd → Prop) (s : Rd)
+    (h : post m (fun a s' => post (f a) Q s') s) : post (m >>= f) Q s := by
+  intro b s2 e
+  change R.bind m f s = _ at e
+  unfold R.bind at e
+  cases hm : m s with
+  | ok v => obtain ⟨a, s1⟩ := v; rw [hm] at e; exact h a s1 hm b s2 e
+  | err x => rw [hm] at e; cases e
+  | panic x => rw [hm] at e; cases e
+
+theorem post_pure {α} (a : α) (Q : α → Rd → Prop) (s : Rd) (h : Q a s) : post (pure a : R α) Q s := by
+  intro a' s' e
+  change R.pure a s = _ at e
+  unfold R.pure at e; cases e; exact h
+
+theorem post_lift {α} (o : Outcome α) (Q : α → Rd → Prop) (s : Rd)
+    (h : ∀ a, o = .ok a → Q a s) : post (R.lift o) Q s := by
+  intro a s' e
+  unfold R.lift at e
+  cases o with
+  | ok a0 => simp only [Outcome.ok.injEq, Prod.mk.injEq] at e; obtain ⟨rfl, rfl⟩ := e; exact h _ rfl
+  | err x => cases e
+  | panic x => cases e
+
+theorem post_ite {α} (c : Prop) [Decidable c] (a b : R α) (Q : α → Rd → Prop) (s : Rd)
+    (ha : c → post a Q s) (hb : ¬ c → post b Q s) : post (if c then a else b) Q s := by
+  by_cases h : c <;> simp [h, ha, hb]
+
+/-- anything is a post-condition of a reader whose result we do not look at -/
+theorem post_any {α} (m : R α) (Q : α → Rd → Prop) (s : Rd) (h : ∀ a s', Q a s') : post m Q s :=
+  fun a s' _ => h a s'
+
+/-- one step of symbolic execution under `post` (analogue of `wp_step`) -/
+syntax "post_step" : tactic
+macro_rules
+  | `(tactic| post_step) => `(tactic| first
+      | with_reducible apply post_bind
+      | with_reducible apply post_pure
+      | (with_reducible apply post_of_wp; with_reducible apply wp_bits_any; intro _ _ _)
+      | (with_reducible apply post_of_wp; with_reducible apply wp_enumId_any; intro _ _ _)
+      | (with_reducible apply post_of_wp; with_reducible apply wp_flag_any; intro _ _)
+      | (with_reducible apply post_of_wp; with_reducible apply wp_pad_any; intro _)
+      | (with_reducible apply post_of_wp; with_reducible apply wp_bitsLE_any; intro _ _)
+      | (with_reducible apply post_of_wp; with_reducible apply wp_seekLast_any; intro _)
+      | with_reducible exact True.intro)
+
+macro "post_run" : tactic => `(tactic| repeat post_step)
+
 /-- one step of symbolic execution of a reader under `wp`, forgetting positions: peels a bind,
     a primitive read (the value is introduced with its bound), `pure`, `fail`. Stops at `R.lift`
     and at conditionals, which the caller handles (`wp_lift_of`, `split`).
